@@ -2,6 +2,7 @@
 CONSTANTS
   Alphabet <- AlphaSim
   MaxLen = 32
+  CC = "#"
   Dump = TRUE
 INIT Init
 NEXT Next
